@@ -39,6 +39,14 @@
 (*              list: the function's, every parameter renamed w_<name>     *)
 (*   "fewer"    the same without the parameters that have defaults         *)
 (*   "stacked"  the function already decorated with log_call               *)
+(* Calling context ctx: WHERE the decorated function is called.            *)
+(*   "top"      outside any action: the log_call action starts a new task  *)
+(*   "action"   inside  with start_action(action_type="outer")             *)
+(*   "private"  inside  with start_action(<private ILogger>, "outer")      *)
+(* In every context the action is written where start_action(action_type=  *)
+(* ...) at the same place would be: to the DEFAULT logger's destinations,  *)
+(* as a child of the current action if there is one; nothing of it goes to *)
+(* the outer action's private logger.                                      *)
 (* OwnSig(tk, sig) is the signature of the callable log_call is given: the *)
 (* wrapper binds and logs against THAT (inspect.signature would follow     *)
 (* __wrapped__ to the function underneath, whose parameters are not the    *)
@@ -57,9 +65,10 @@ CONSTANTS MaxParams,      \* longest signature with ordinary names only
           Extra,          \* keyword names used in calls besides the parameters' names
           FullOptParams,  \* signatures up to this length (hazardous name: only self) are combined with EVERY option
           FullOptKw,      \* ... for calls with at most this many keywords
-          KindParams      \* ordinary-name signatures up to this length are also explored behind the other target kinds
+          KindParams,     \* ordinary-name signatures up to this length are also explored behind the other target kinds
+          CtxParams       \* ordinary-name signatures up to this length are also called inside another action (calling contexts)
 
-VARIABLES cs,    \* the case: [sig, tk, call, opt]   (never changes)
+VARIABLES cs,    \* the case: [sig, tk, ctx, call, opt]   (never changes)
           pc,    \* control state of the decorator / wrapper
           obs    \* observable events so far
 vars == <<cs, pc, obs>>
@@ -255,6 +264,15 @@ KindOpts(tk, sig, c) ==
                      ELSE {})
   IN (IF Bind(os, c).ok THEN bound ELSE {DefaultOpt}) \cup (IF NullCall(c) THEN refused ELSE {})
 
+\* calling contexts: a sample (the plain function, short ordinary-name signatures, outside the scope of F4b / F4c)
+Contexts(tk, sig, c) == {"top"} \cup (IF tk = "plain" /\ ~IsHaz(sig) /\ Len(sig) <= CtxParams /\ ~NamesPosOnly(sig, c)
+                                      THEN {"action", "private"} ELSE {})
+CtxOpts(sig, c) == IF Bind(sig, c).ok
+                   THEN {DefaultOpt, [ia |-> NoIa, ir |-> FALSE, at |-> TRUE, fx |-> "raise", bare |-> FALSE]}
+                   ELSE {DefaultOpt}
+\* where the log_call action is written and which task it belongs to
+Placement(ctx) == [to |-> "default", task |-> IF ctx = "top" THEN "new" ELSE "outer"]
+
 -----------------------------------------------------------------------------
 (* Part 2.  The decorator and its wrapper.                                 *)
 Logged(sig, o) == {sig[i].n : i \in {j \in DOMAIN sig : /\ sig[j].n # "self"
@@ -265,10 +283,12 @@ Ev(e, what) == [e |-> e, what |-> what]
 OS(c) == OwnSig(c.tk, c.sig)                       \* the signature the wrapper binds and logs against
 \* FALSE: the callable accepts the call but raises a TypeError (T) itself when it calls the function underneath
 InnerOK(c) == Bind(OS(c), c.call).ok => Inner(c.tk, c.sig, c.call).ok
-StartEv(c) == [e |-> "start", type |-> ActionType(c.call, c.opt), fields |-> Logged(OS(c), c.opt)]
-EndEv(c)   == IF ~InnerOK(c) THEN [e |-> "end", status |-> "failed", result |-> FALSE]
-              ELSE IF c.opt.fx = "ret" THEN [e |-> "end", status |-> "succeeded", result |-> c.opt.ir]   \* result logged unless include_result=False
-              ELSE [e |-> "end", status |-> "failed", result |-> FALSE]
+StartEv(c) == [e |-> "start", type |-> ActionType(c.call, c.opt), fields |-> Logged(OS(c), c.opt),
+               to |-> Placement(c.ctx).to, task |-> Placement(c.ctx).task]
+EndEv(c)   == LET w == Placement(c.ctx)
+              IN IF ~InnerOK(c) THEN [e |-> "end", status |-> "failed", result |-> FALSE, to |-> w.to, task |-> w.task]
+                 ELSE IF c.opt.fx = "ret" THEN [e |-> "end", status |-> "succeeded", result |-> c.opt.ir, to |-> w.to, task |-> w.task]  \* result unless include_result=False
+                 ELSE [e |-> "end", status |-> "failed", result |-> FALSE, to |-> w.to, task |-> w.task]
 RetEv(c)   == IF ~InnerOK(c) THEN Ev("raise", "T")                                                      \* the callable's own TypeError
               ELSE IF c.opt.fx = "ret" THEN Ev("return", "R") ELSE Ev("raise", "X")                     \* the SAME object R / X
 
@@ -277,7 +297,9 @@ Init == /\ \E s \in Sigs : \E tk \in TargetKinds(s) :
              \E c \in (IF tk = "inject" THEN CallsP(InjectSig, ParamNames(s) \cup Extra) ELSE Calls(OwnSig(tk, s))) :
                /\ c.meth => MethOK(s, c.np)
                /\ KindCallOK(tk, s, c)
-               /\ \E o \in (IF tk = "plain" THEN Opts(s, c) ELSE KindOpts(tk, s, c)) : cs = [sig |-> s, tk |-> tk, call |-> c, opt |-> o]
+               /\ \E ctx \in Contexts(tk, s, c) :
+                    \E o \in (IF ctx # "top" THEN CtxOpts(s, c) ELSE IF tk = "plain" THEN Opts(s, c) ELSE KindOpts(tk, s, c)) :
+                      cs = [sig |-> s, tk |-> tk, ctx |-> ctx, call |-> c, opt |-> o]
         /\ pc = "decorate"
         /\ obs = <<>>
 
@@ -381,6 +403,11 @@ Shape == pc = "done" =>
        /\ (obs[4].status = "failed") <=> (obs[5] \in {Ev("raise", "X"), Ev("raise", "T")})
        /\ (obs[5] = Ev("raise", "T")) <=> ~INR.ok          \* (here B.ok)
        /\ obs[4].result <=> (cs.opt.ir /\ cs.opt.fx = "ret" /\ INR.ok)
+\* the action is written to the default logger's destinations in every context; a new task only outside any action
+PlacementOK == (pc = "done" /\ Len(obs) = 5) =>
+                 /\ obs[2].to = "default" /\ obs[4].to = "default"
+                 /\ obs[2].task = obs[4].task
+                 /\ (obs[2].task = "new") <=> (cs.ctx = "top")
 TypeOK == /\ pc \in {"decorate", "invoke", "start", "call", "end", "return", "done"}
           /\ Len(obs) <= 5
 
@@ -402,7 +429,8 @@ Emit == pc = "done" =>
                     \* target kind, the callable's own signature, the binding the function underneath sees (<<>>: TypeError / not reached)
                     cs.tk,
                     [s \in DOMAIN OS(cs) |-> <<OS(cs)[s].k, OS(cs)[s].d, OS(cs)[s].n>>],
-                    IF INR.ok THEN <<[i \in DOMAIN INR.b |-> <<INR.b[i].t, INR.b[i].lo, INR.b[i].hi, INR.b[i].ks>>]>> ELSE <<>>>>))
+                    IF INR.ok THEN <<[i \in DOMAIN INR.b |-> <<INR.b[i].t, INR.b[i].lo, INR.b[i].hi, INR.b[i].ks>>]>> ELSE <<>>,
+                    cs.ctx>>))
 
 \* deliberately wrong variants, which TLC must reject (vacuity guards; MC_LogCall_Broken1.cfg / MC_LogCall_Broken2.cfg)
 BrokenNoDupCheck  == pc = "invoke" => BindSeqV(cs.sig, cs.call, FALSE) = B     \* a keyword may overwrite a filled slot
